@@ -141,6 +141,13 @@ FORMS += ["READ{+}A1{_},{_}B2${_},{_}C3{_},{_}D4$", "INPUT{+}A1{_},{_}B2${_},{_}
           'PRINT{+}A1{_};{_}B2{_};{_}C3${_},{_}D4', "ON{+}A1{+}GOTO{_}100{_},{_}200{_},{_}100", "ON{+}A1{+}GOSUB{_}100{_},{_}200{_},{_}100", "A1=B2{_}+{_}C3{_}+{_}D4{_}-{_}1",
           "A1=B2{_}*{_}C3{_}/{_}D4{_}*{_}2", "A1=B2{+}AND{+}C3{+}AND{+}D4", "A1=B2{+}OR{+}C3{+}OR{+}D4", "A1{_}({_}1{_},{_}2{_},{_}3{_}){_}={_}B2{_}({_}3{_},{_}2{_},{_}1{_})",
           "A1=1{_}:{_}B2=2{_}:{_}C3=3{_}:{_}D4=4", 'A1$=B2${_}+{_}"x"{_}+{_}C3${_}+{_}"y"', "DATA 1{_},2{_},3", "A1=B2{_}^{_}2{_}^{_}3"]
+# numerals of every shape directly in front of a keyword (the numeral must stop where the keyword starts, with or without blanks)
+# (a hex numeral in front of AND / ELSE is left out: there the blank separates hex digits from a keyword that starts with one, like the
+# blank between an identifier and a keyword)
+FORMS += ["IF{+}A1=&HF{_}THEN{_}100", "FOR{+}I1=&HF{_}TO{_}&HF{_}STEP{_}&HF", "ON{+}A1+&HF{_}GOTO{_}100", "A1=&HF{_}OR{_}&H1F"]
+for _n in ("2", "2.5", "2.", ".5", "2.5E1", "2E1"):
+    FORMS += ["IF{+}A1=1{+}THEN{+}B2=%s{_}ELSE{+}B2=3" % _n, "IF{+}A1=1{+}THEN{+}B2=%s{_}ELSE{_}30" % _n, "IF{+}A1=%s{_}THEN{_}100" % _n, "FOR{+}I1=%s{_}TO{_}%s{_}STEP{_}%s" % (_n, _n, _n),
+              "A1=%s{_}AND{_}%s{_}OR{_}%s" % (_n, _n, _n), "ON{+}A1+%s{_}GOTO{_}100" % _n, "IF{+}A1=1{+}THEN{+}B2=1{+}ELSE{+}IF{+}A1=%s{_}THEN{+}B2=%s{_}ELSE{_}40" % (_n, _n)]
 FORMS += ["PRINT{+}" + "{_};{_}".join(["A1", "B2$", '"x y"'] * 20), "A1={_}" + "{_}+{_}".join(["B2"] * 70), "DATA " + "{_},".join(["12"] * 70)]
 FORMS += [re.sub(r"^([A-Z]+) ", r"\\1{+}", t).replace("{e}", "A1").replace("{s}", "A1$").replace(",", "{_},{_}").replace("(", "{_}({_}").replace(")", "{_}){_}") for _, t, _, _ in ROWS]
 
